@@ -74,6 +74,8 @@ def render_operand(i, op):
         body = entry(nm["first"], op) + " | " + body
     if nm["inj"]:
         body += f" @$({nm['inj']} x)"
+    if op.get("wrap"):  # repair transform of the checker: the same bare command written explicitly as ![...]
+        return "![" + body + "]"
     return WRAP[op["form"]].format(body)
 
 
